@@ -43,6 +43,9 @@ macro_rules! battery {
             fn show_d(x: &Date) -> String {
                 format!("{}|{:?}", x.timestamp(), x.as_ymd())
             }
+            fn p(f: impl FnOnce() -> String) -> String {
+                match std::panic::catch_unwind(std::panic::AssertUnwindSafe(f)) { Ok(s) => s, Err(_) => "PANIC".to_string() }
+            }
             fn res<T, E: std::fmt::Display>(r: Result<T, E>, f: impl Fn(&T) -> String) -> String {
                 match r { Ok(v) => format!("Ok({})", f(&v)), Err(e) => format!("Err({})", e) }
             }
@@ -67,22 +70,22 @@ macro_rules! battery {
                     "C04" => {
                         let x = dt(a, b, cc);
                         let n = d as u32;
-                        let r = match e.rem_euclid(20) {
+                        let r = p(|| match e.rem_euclid(20) {
                             0 => show_dt(&x.add_hours(n)), 1 => show_dt(&x.add_minutes(n)), 2 => show_dt(&x.add_seconds(n)), 3 => show_dt(&x.add_millis(n)),
                             4 => show_dt(&x.add_micros(n)), 5 => show_dt(&x.add_nanos(n)), 6 => show_dt(&x.sub_hours(n)), 7 => show_dt(&x.sub_minutes(n)),
                             8 => show_dt(&x.sub_seconds(n)), 9 => show_dt(&x.sub_millis(n)), 10 => show_dt(&x.sub_micros(n)), 11 => show_dt(&x.sub_nanos(n)),
                             12 => show_dt(&x.add_days(n)), 13 => show_dt(&x.sub_days(n)), 14 => show_d(&date(a).add_days(n)), 15 => show_d(&date(a).sub_days(n)),
                             16 => show_dt(&(x + Duration::new(f as u64, (d as u32) % 1_000_000_000))), 17 => show_dt(&(x - Duration::new(f as u64, (d as u32) % 1_000_000_000))),
                             18 => show_dt(&(x + time(f.rem_euclid(86_400_000_000_000), 0))), _ => show_dt(&(x - time(f.rem_euclid(86_400_000_000_000), cc))),
-                        };
+                        });
                         let du = Duration::new(f as u64, (d as u32) % 1_000_000_000);
                         let tm = time(f.rem_euclid(86_400_000_000_000), 0);
-                        let r = format!("{} ; {}", r, match e.rem_euclid(6) {
+                        let r = format!("{} ; {}", r, p(|| match e.rem_euclid(6) {
                             0 => { let mut y = x; y += du; show_dt(&y) } 1 => { let mut y = x; y -= du; show_dt(&y) }
                             2 => { let mut y = x; y += tm; show_dt(&y) } 3 => { let mut y = x; y -= tm; show_dt(&y) }
                             4 => { let mut y = date(a); y += du; show_d(&y) } _ => { let mut y = date(a); y -= du; show_d(&y) }
-                        });
-                        let r2 = match e.rem_euclid(2) { 0 => show_d(&(date(a) + Duration::new(f as u64, 5))), _ => show_d(&(date(a) - Duration::new(f as u64, 5))) };
+                        }));
+                        let r2 = p(|| match e.rem_euclid(2) { 0 => show_d(&(date(a) + Duration::new(f as u64, 5))), _ => show_d(&(date(a) - Duration::new(f as u64, 5))) });
                         format!("{} / {}", r, r2)
                     }
                     "C05" => {
@@ -97,12 +100,12 @@ macro_rules! battery {
                         let x = dt(a, b, cc);
                         let y = dt(d, e, f.rem_euclid(7) * 3600);
                         let (tx, ty) = (time(b, 0), time(e, 0));
-                        format!("{} {} {} {} {} {} {} | {} {} | t {} {} {} {} {} {} | d {} {} {} | dur {:?} {:?} {:?}",
-                            x.days_since(&y), x.hours_since(&y), x.minutes_since(&y), x.seconds_since(&y), x.millis_since(&y), x.micros_since(&y), x.nanos_since(&y),
-                            x.months_since(&y), x.years_since(&y),
-                            tx.hours_since(&ty), tx.minutes_since(&ty), tx.seconds_since(&ty), tx.millis_since(&ty), tx.micros_since(&ty), tx.nanos_since(&ty),
-                            date(a).days_since(&date(d)), date(a).months_since(&date(d)), date(a).years_since(&date(d)),
-                            x.duration_between(&y), tx.duration_between(&ty), date(a).duration_between(&date(d)))
+                        let p1 = p(|| format!("{} {} {} {} {} {} {}", x.days_since(&y), x.hours_since(&y), x.minutes_since(&y), x.seconds_since(&y), x.millis_since(&y), x.micros_since(&y), x.nanos_since(&y)));
+                        let p2 = p(|| format!("{} {}", x.months_since(&y), x.years_since(&y)));
+                        let p3 = p(|| format!("{} {} {} {} {} {}", tx.hours_since(&ty), tx.minutes_since(&ty), tx.seconds_since(&ty), tx.millis_since(&ty), tx.micros_since(&ty), tx.nanos_since(&ty)));
+                        let p4 = p(|| format!("{} {} {}", date(a).days_since(&date(d)), date(a).months_since(&date(d)), date(a).years_since(&date(d))));
+                        let p5 = p(|| format!("{:?} {:?} {:?}", x.duration_between(&y), tx.duration_between(&ty), date(a).duration_between(&date(d))));
+                        format!("{} | {} | t {} | d {} | dur {}", p1, p2, p3, p4, p5)
                     }
                     "C08" => {
                         let x = time(a.rem_euclid(86_400_000_000_000), b);
@@ -127,7 +130,7 @@ macro_rules! battery {
                         let v = d as u32;
                         let g = |q: &DateTime| format!("{}-{}-{} {}:{}:{}.{} {}/{}/{} doy{} wd{}", q.year(), q.month(), q.day(), q.hour(), q.minute(), q.second(), q.nano(), q.milli(), q.micro(), q.timestamp(), q.day_of_year(), q.weekday());
                         let gt = |q: &Time| format!("{}:{}:{}.{} {}/{} {}", q.hour(), q.minute(), q.second(), q.nano(), q.milli(), q.micro(), q.as_nanos());
-                        let r = match e.rem_euclid(30) {
+                        let r = p(|| match e.rem_euclid(30) {
                             0 => res(x.set_year(d as i32), g), 1 => res(x.set_month(v), g), 2 => res(x.set_day(v), g), 3 => res(x.set_day_of_year(v), g),
                             4 => res(x.set_hour(v), g), 5 => res(x.set_minute(v), g), 6 => res(x.set_second(v), g), 7 => res(x.set_milli(v), g),
                             8 => res(x.set_micro(v), g), 9 => res(x.set_nano(v), g),
@@ -137,15 +140,15 @@ macro_rules! battery {
                             23 => res(t.set_micro(v), gt), 24 => res(t.set_nano(v), gt),
                             25 => gt(&t.clear_until_hour()), 26 => gt(&t.clear_until_minute()), 27 => gt(&t.clear_until_second()), 28 => gt(&t.clear_until_milli()),
                             _ => format!("{} {}", gt(&t.clear_until_micro()), gt(&t.clear_until_nano())),
-                        };
+                        });
                         let o = Offset::from_seconds(f as i32);
                         let r2 = match &o {
-                            Ok(off) => format!("{} | {} | {} | {:?}", g(&x.set_offset(*off)), g(&x.as_offset(*off)), gt(&t.as_offset(*off)), off.resolve_hms()),
+                            Ok(off) => format!("{} | {} | {} | {:?}", p(|| g(&x.set_offset(*off))), p(|| g(&x.as_offset(*off))), p(|| gt(&t.as_offset(*off))), off.resolve_hms()),
                             Err(er) => format!("Err({})", er),
                         };
-                        let r3 = format!("{} {} {} {} {}", res(DateTime::from_ymdhms(d as i32, (f & 15) as u32, (e & 63) as u32, (cc & 31) as u32, (a & 63) as u32, (b & 63) as u32), g),
+                        let r3 = p(|| format!("{} {} {} {} {}", res(DateTime::from_ymdhms(d as i32, (f & 15) as u32, (e & 63) as u32, (cc & 31) as u32, (a & 63) as u32, (b & 63) as u32), g),
                             res(Offset::from_hms((f % 40) as i32, (e & 63) as u32, (a & 63) as u32), |o| format!("{:?}", o)), res(DateTime::from_hms(v, (e & 63) as u32, (a & 63) as u32), g),
-                            res(Date::from_ymd(d as i32, (f & 15) as u32, (e & 63) as u32).and_then(|q| q.set_day_of_year(v % 400)), show_d), res(date(a).set_year(d as i32), show_d));
+                            res(Date::from_ymd(d as i32, (f & 15) as u32, (e & 63) as u32).and_then(|q| q.set_day_of_year(v % 400)), show_d), res(date(a).set_year(d as i32), show_d)));
                         format!("{} || {} || {}", r, r2, r3)
                     }
                     "C11" => {
@@ -201,9 +204,9 @@ fn gen(prop: &str, r: &mut Rng) -> Case {
             Case { a: day(r), b: y, c: small(r, 14), d: small(r, 33), e: small(r, 368), f: 0 }
         }
         "C03" => Case { a: if r.next() % 2 == 0 { (r.next() as i64) >> (r.next() % 40) } else { (day(r) - 719_162) * 86_400 + small(r, 86_400) - 1 }, b: day(r).clamp(-2_000_000_000, 2_000_000_000), c: nano(r), d: r.pick(&OFFS), e: r.next() as i64, f: r.next() as i64 },
-        "C04" | "C05" => Case { a: day(r).clamp(-2_147_483_000, 2_147_483_000), b: nano(r), c: r.pick(&OFFS), d: cnt(r), e: r.next() as i64 & 0xffff, f: if r.next() % 2 == 0 { cnt(r) * 1000 } else { (r.next() >> (r.next() % 40)) as i64 & 0x7fff_ffff_ffff_ffff } },
+        "C04" | "C05" => Case { a: day(r).clamp(-2_147_483_000, 2_147_483_000), b: nano(r), c: r.pick(&OFFS), d: cnt(r), e: r.next() as i64 & 0xffff, f: match r.next() % 4 { 0 => cnt(r) * 1000, 1 => r.pick(&[-1, -86_400, i64::MAX, i64::MIN, 1 << 32, (1 << 32) - 1, 185_542_587_187_199, 185_542_587_187_200]), _ => (r.next() >> (r.next() % 40)) as i64 & 0x7fff_ffff_ffff_ffff } },
         "C06" | "C07" => { let a = day(r).clamp(-2_000_000_000, 2_000_000_000); let near = r.next() % 2 == 0; Case { a, b: nano(r), c: r.pick(&OFFS), d: if near { a + small(r, 800) - 400 } else { day(r).clamp(-2_000_000_000, 2_000_000_000) }, e: nano(r), f: r.next() as i64 & 0xff } }
-        "C08" => Case { a: nano(r), b: r.pick(&OFFS), c: cnt(r), d: nano(r), e: r.next() as i64 & 0xffff, f: if r.next() % 2 == 0 { cnt(r) } else { (r.next() >> (r.next() % 30)) as i64 & 0x7fff_ffff_ffff_ffff } },
+        "C08" => Case { a: nano(r), b: r.pick(&OFFS), c: cnt(r), d: if r.next() % 4 == 0 { r.pick(&[86_400_000_000_000, 86_400_000_000_001, -1, i64::MAX, 4_294_967_296_000_000_000, 4_294_967_295_999_999_999, 1 << 63]) } else { nano(r) }, e: r.next() as i64 & 0xffff, f: if r.next() % 2 == 0 { cnt(r) } else { (r.next() >> (r.next() % 30)) as i64 & 0x7fff_ffff_ffff_ffff } },
         "C09" | "C10" | "C15" => Case { a: day(r).clamp(-2_147_000_000, 2_147_000_000), b: nano(r), c: r.pick(&OFFS), d: if r.next() % 2 == 0 { small(r, 70) } else { r.pick(&[0, 1, 12, 13, 23, 24, 28, 29, 30, 31, 32, 59, 60, 255, 256, 365, 366, 367, 999, 1000, 999_999, 1_000_000, 999_999_999, 1_000_000_000, 2024, 2023, -5, -4, 5_879_611, -5_879_611, 4_294_967_295, 2_147_483_648, -2_147_483_648]) }, e: r.next() as i64 & 0xffff, f: if r.next() % 2 == 0 { r.pick(&OFFS) } else { r.pick(&[86_400, -86_400, 90_000, -2_147_483_648, 2_147_483_647, 23, -23, 24, 25]) } },
         "C11" => Case { a: day(r).clamp(-2_000_000_000, 2_000_000_000), b: nano(r), c: r.pick(&OFFS), d: r.next() as i64 & 0xffff, e: 0, f: 0 },
         _ => Case { a: 0, b: 0, c: 0, d: 0, e: 0, f: 0 },
